@@ -218,4 +218,219 @@ Section JournalProofs.
     exists g, c. cbn [concat app] in E. fold w in H1, H2, H3, H4. repeat split; auto.
     eapply Forall_impl; [|exact H4]. cbn beta. intros e He. lia.
   Qed.
+
+  (* ---------- a failing sink: every chunk that reaches the journal still spans its recordings ---------- *)
+  Notation fflush := (fflush hash).
+  Notation fadd := (fadd addr hash mask heqb).
+  Notation fapply := (fapply addr hash mask heqb).
+  Notation fjrun := (fjrun addr hash mask heqb).
+
+  (* a parsable line is a chunk that holds exactly some recorded events, all inside its span *)
+  Definition line_ok (evs : list event) (l : option (chunk hash)) : Prop :=
+    match l with Some c => exists seg, chunk_ok c seg /\ incl seg evs | None => True end.
+  Definition tail_ok (evs : list event) (t : tail hash) : Prop :=
+    match t with TJson c => exists seg, chunk_ok c seg /\ incl seg evs | _ => True end.
+  (* event e went into line l (an unparsable line may hide anything) *)
+  Definition covers (l : option (chunk hash)) (e : event) : Prop :=
+    match l with Some c => exists seg, chunk_ok c seg /\ In e seg | None => True end.
+
+  Definition FJinv (w : fwriter hash) (evs gcur : list event) (tmax : Z) : Prop :=
+    f_cur w = sk_of (masks gcur) /\
+    Forall (line_ok evs) (f_lines w) /\ tail_ok evs (f_tail w) /\
+    Forall (fun e => f_last w <= fst e <= tmax) gcur /\ f_last w <= tmax /\ incl gcur evs /\
+    (forall e, In e evs -> In e gcur \/ exists l, In l (f_lines w) /\ covers l e).
+
+  Lemma line_ok_mono : forall evs evs' l, incl evs evs' -> line_ok evs l -> line_ok evs' l.
+  Proof.
+    intros evs evs' [c|] Hi H; cbn in *; auto. destruct H as [seg [H1 H2]]. exists seg. split; auto.
+    intros x Hx. apply Hi, H2, Hx.
+  Qed.
+  Lemma tail_ok_mono : forall evs evs' t, incl evs evs' -> tail_ok evs t -> tail_ok evs' t.
+  Proof.
+    intros evs evs' [| |c] Hi H; cbn in *; auto. destruct H as [seg [H1 H2]]. exists seg. split; auto.
+    intros x Hx. apply Hi, H2, Hx.
+  Qed.
+
+  Lemma FJinv_flush : forall w evs gcur tmax now,
+    FJinv w evs gcur tmax -> tmax <= now ->
+    exists gcur', FJinv (fflush now w) evs gcur' now.
+  Proof.
+    intros w evs gcur tmax now [H1 [H2 [H3 [H4 [H5 [H6 H7]]]]]] Hn.
+    set (c := {| c_start := f_last w; c_end := now; c_sk := f_cur w |}).
+    assert (Hc : chunk_ok c gcur).
+    { unfold chunk_ok, c. cbn [c_sk c_start c_end]. split; [exact H1|]. split; [lia|].
+      eapply Forall_impl; [|exact H4]. cbn beta. intros e He. lia. }
+    assert (Hcl : line_ok evs (Some c)) by (exists gcur; split; assumption).
+    assert (H4' : Forall (fun e => f_last w <= fst e <= now) gcur).
+    { eapply Forall_impl; [|exact H4]. cbn beta. intros e He. lia. }
+    assert (Hput : forall l, line_ok evs l -> (forall e, In e gcur -> covers l e) ->
+              Forall (line_ok evs) (f_lines w ++ [l]) /\
+              (forall e, In e evs -> In e gcur \/ exists l', In l' (f_lines w ++ [l]) /\ covers l' e) /\
+              (forall e, In e evs -> In e (@nil event) \/ exists l', In l' (f_lines w ++ [l]) /\ covers l' e)).
+    { intros l Hl Hcov. split; [apply Forall_app; split; [exact H2 | constructor; [exact Hl | constructor]]|]. split.
+      - intros e He. destruct (H7 e He) as [Hg|[l' [Hl' Hc']]]; [left; exact Hg|].
+        right. exists l'. split; [apply in_or_app; left; exact Hl' | exact Hc'].
+      - intros e He. right. destruct (H7 e He) as [Hg|[l' [Hl' Hc']]].
+        + exists l. split; [apply in_or_app; right; left; reflexivity | apply Hcov; exact Hg].
+        + exists l'. split; [apply in_or_app; left; exact Hl' | exact Hc']. }
+    assert (HcovS : forall e, In e gcur -> covers (Some c) e) by (intros e He; exists gcur; split; assumption).
+    assert (HcovN : forall e, In e gcur -> covers None e) by (intros; exact I).
+    unfold Journal.fflush. fold c.
+    destruct (match f_plan w with [] => WOk | r :: _ => r end) eqn:Er.
+    - (* WOk *)
+      exists []. unfold FJinv, put_line. cbn [f_cur f_lines f_tail f_last].
+      destruct (f_tail w); [destruct (Hput (Some c) Hcl HcovS) as [A [_ B]] | destruct (Hput None I HcovN) as [A [_ B]]
+                            | destruct (Hput None I HcovN) as [A [_ B]]];
+        (split; [reflexivity|]; split; [exact A|]; split; [exact I|]; split; [constructor|]; split; [lia|];
+         split; [intros x []|exact B]).
+    - (* WSyncErr *)
+      exists []. unfold FJinv, put_line. cbn [f_cur f_lines f_tail f_last].
+      destruct (f_tail w); [destruct (Hput (Some c) Hcl HcovS) as [A [_ B]] | destruct (Hput None I HcovN) as [A [_ B]]
+                            | destruct (Hput None I HcovN) as [A [_ B]]];
+        (split; [reflexivity|]; split; [exact A|]; split; [exact I|]; split; [constructor|]; split; [lia|];
+         split; [intros x []|exact B]).
+    - (* WNone *)
+      exists gcur. unfold FJinv. cbn [f_cur f_lines f_tail f_last]. repeat split; auto; lia.
+    - (* WTorn *)
+      exists gcur. unfold FJinv. cbn [f_cur f_lines f_tail f_last]. repeat split; auto; lia.
+    - (* WNoNewline *)
+      exists gcur. unfold FJinv. cbn [f_cur f_lines f_tail f_last].
+      split; [exact H1|]. split; [exact H2|]. split; [destruct (f_tail w); [exact Hcl | exact I | exact I]|].
+      split; [exact H4'|]. split; [lia|]. split; [exact H6 | exact H7].
+    - (* WWhole *)
+      exists gcur. unfold FJinv, put_line. cbn [f_cur f_lines f_tail f_last].
+      destruct (f_tail w); [destruct (Hput (Some c) Hcl HcovS) as [A [B _]] | destruct (Hput None I HcovN) as [A [B _]]
+                            | destruct (Hput None I HcovN) as [A [B _]]];
+        (split; [exact H1|]; split; [exact A|]; split; [exact I|]; split; [exact H4'|]; split; [lia|];
+         split; [exact H6 | exact B]).
+  Qed.
+
+  Lemma FJinv_step : forall w evs gcur tmax o,
+    FJinv w evs gcur tmax -> tmax <= op_time o ->
+    exists gcur', FJinv (fapply w o) (evs ++ op_events o) gcur' (op_time o).
+  Proof.
+    intros w evs gcur tmax o HI Ht. destruct o as [now ip|now]; cbn [op_time op_events Journal.fapply] in *.
+    - assert (Hgen : forall w1 g1, FJinv w1 evs g1 now ->
+                FJinv {| f_last := f_last w1; f_int := f_int w1; f_cur := sk_add (f_cur w1) (mask ip); f_lines := f_lines w1;
+                         f_tail := f_tail w1; f_plan := f_plan w1 |} (evs ++ [(now, ip)]) (g1 ++ [(now, ip)]) now).
+      { intros w1 g1 [H1 [H2 [H3 [H4 [H5 [H6 H7]]]]]]. unfold FJinv. cbn [f_cur f_lines f_tail f_last].
+        assert (Hi : incl evs (evs ++ [(now, ip)])) by (intros x Hx; apply in_or_app; left; exact Hx).
+        split; [unfold masks; rewrite map_app; cbn [map snd]; fold (masks g1); rewrite sk_of_snoc, H1; reflexivity|].
+        split; [eapply Forall_impl; [|exact H2]; intros l Hl; eapply line_ok_mono; eauto|].
+        split; [eapply tail_ok_mono; eauto|].
+        split; [apply Forall_app; split; [exact H4 | constructor; [cbn [fst]; lia | constructor]]|].
+        split; [exact H5|]. split.
+        - intros x Hx. apply in_app_or in Hx. apply in_or_app. destruct Hx as [Hx|Hx]; [left; apply H6; exact Hx | right; exact Hx].
+        - intros e He. apply in_app_or in He. destruct He as [He|He].
+          + destruct (H7 e He) as [Hg|Hl]; [left; apply in_or_app; left; exact Hg | right; exact Hl].
+          + left. apply in_or_app. right. exact He. }
+      unfold Journal.fadd. destruct (f_last w + f_int w <? now) eqn:E.
+      + destruct (FJinv_flush _ _ _ _ now HI Ht) as [g1 H1]. exists (g1 ++ [(now, ip)]). apply Hgen. exact H1.
+      + exists (gcur ++ [(now, ip)]). apply Hgen.
+        destruct HI as [H1 [H2 [H3 [H4 [H5 [H6 H7]]]]]]. unfold FJinv. repeat split; auto; try lia.
+        eapply Forall_impl; [|exact H4]. cbn beta. intros e He. lia.
+    - rewrite app_nil_r. apply (FJinv_flush _ _ _ _ now HI Ht).
+  Qed.
+
+  Lemma FJinv_run : forall ops w evs gcur tmax,
+    FJinv w evs gcur tmax -> mono tmax ops ->
+    exists gcur' tmax', FJinv (fjrun ops w) (evs ++ flat_map op_events ops) gcur' tmax'.
+  Proof.
+    induction ops as [|o ops IH]; intros w evs gcur tmax HI HM; cbn [Journal.fjrun fold_left flat_map].
+    - exists gcur, tmax. rewrite app_nil_r. exact HI.
+    - destruct HM as [Ht HM]. destruct (FJinv_step _ _ _ _ o HI Ht) as [g1 HI1].
+      destruct (IH _ _ _ _ HI1 HM) as [g2 [t2 HI2]]. exists g2, t2. rewrite <- app_assoc in HI2. exact HI2.
+  Qed.
+
+  Lemma In_file_of : forall (w : fwriter hash) c, In (Some c) (file_of w) -> In (Some c) (f_lines w) \/ f_tail w = TJson c.
+  Proof.
+    intros w c H. unfold file_of in H. apply in_app_or in H. destruct H as [H|H]; [left; exact H|].
+    destruct (f_tail w) as [| |c']; cbn in H; try (destruct H as [H|[]]; try discriminate); try contradiction.
+    right. inversion H; subst. reflexivity.
+  Qed.
+
+  (* C19_journal_failed_writes: for every pattern of failing writes, every chunk that can be read back from the
+     journal holds exactly some of the recorded events and its recording span contains the instants of all of
+     them; the open sketch holds events no older than the last write taken for successful; and, as long as no line
+     was damaged, every recorded event is in the open sketch or in a chunk of the file *)
+  Lemma failed_writes : forall t0 interval plan ops,
+    mono t0 ops ->
+    let w := fjrun ops (fnew t0 interval plan) in
+    let evs := flat_map op_events ops in
+    (forall c, In (Some c) (file_of w) ->
+       exists seg, c_sk c = sk_of (masks seg) /\ c_start c <= c_end c /\
+                   Forall (fun e => c_start c <= fst e <= c_end c) seg /\ incl seg evs) /\
+    (exists open, f_cur w = sk_of (masks open) /\ Forall (fun e => f_last w <= fst e) open /\ incl open evs /\
+       (readable (f_lines w) = true ->
+        forall e, In e evs -> In e open \/
+          exists c seg, In (Some c) (f_lines w) /\ c_sk c = sk_of (masks seg) /\ In e seg /\
+                        c_start c <= fst e <= c_end c)).
+  Proof.
+    intros t0 interval plan ops HM w evs.
+    assert (H0 : FJinv (fnew t0 interval plan) [] [] t0).
+    { unfold FJinv, fnew. cbn [f_cur f_lines f_tail f_last].
+      split; [reflexivity|]. split; [constructor|]. split; [exact I|]. split; [constructor|]. split; [lia|].
+      split; [intros x []|intros e0 []]. }
+    destruct (FJinv_run ops _ _ _ _ H0 HM) as [g [t [H1 [H2 [H3 [H4 [H5 [H6 H7]]]]]]]].
+    cbn [app] in *. fold w in H1, H2, H3, H4, H5, H7. fold evs in H2, H3, H6, H7. split.
+    - intros c Hc. apply In_file_of in Hc. destruct Hc as [Hc|Hc].
+      + rewrite Forall_forall in H2. destruct (H2 _ Hc) as [seg [[A [B C]] D]]. exists seg. auto.
+      + rewrite Hc in H3. destruct H3 as [seg [[A [B C]] D]]. exists seg. auto.
+    - exists g. split; [exact H1|]. split; [eapply Forall_impl; [|exact H4]; cbn beta; intros e He; lia|].
+      split; [exact H6|]. intros Hr e He. destruct (H7 e He) as [Hg|[l [Hl Hc]]]; [left; exact Hg|]. right.
+      destruct l as [c|].
+      + destruct Hc as [seg [[A [B C]] D]]. exists c, seg. split; [exact Hl|]. split; [exact A|]. split; [exact D|].
+        rewrite Forall_forall in C. apply C. exact D.
+      + exfalso. unfold readable in Hr. rewrite forallb_forall in Hr. specialize (Hr _ Hl). discriminate.
+  Qed.
+
+  (* with a sink that never fails the failing-sink writer IS the writer of the theorems above *)
+  Definition fsim (w : writer hash) (fw : fwriter hash) : Prop :=
+    f_last fw = w_last w /\ f_int fw = w_int w /\ f_cur fw = w_cur w /\ f_lines fw = map Some (w_out w) /\
+    f_tail fw = TEmpty /\ f_plan fw = [].
+
+  Lemma fsim_flush : forall now w fw, fsim w fw -> fsim (flush now w) (fflush now fw).
+  Proof.
+    intros now w fw [A [B [C [D [E F]]]]]. unfold fsim, Journal.flush, Journal.fflush, put_line. rewrite F, E. cbn [tl].
+    cbn [f_last f_int f_cur f_lines f_tail f_plan w_last w_int w_cur w_out].
+    repeat split; auto. rewrite map_app, D, A, C. reflexivity.
+  Qed.
+
+  Lemma fsim_run : forall ops w fw, fsim w fw -> fsim (jrun ops w) (fjrun ops fw).
+  Proof.
+    induction ops as [|o ops IH]; intros w fw H; cbn [Journal.jrun Journal.fjrun fold_left]; [exact H|].
+    apply IH. destruct o as [now ip|now]; cbn [Journal.japply Journal.fapply].
+    - unfold Journal.add, Journal.fadd. destruct H as [A [B [C [D [E F]]]]]. rewrite A, B.
+      destruct (w_last w + w_int w <? now).
+      + destruct (fsim_flush now w fw (conj A (conj B (conj C (conj D (conj E F)))))) as [A' [B' [C' [D' [E' F']]]]].
+        unfold fsim. cbn [f_last f_int f_cur f_lines f_tail f_plan w_last w_int w_cur w_out]. rewrite C'. repeat split; auto.
+      + unfold fsim. cbn [f_last f_int f_cur f_lines f_tail f_plan w_last w_int w_cur w_out]. rewrite C. repeat split; auto.
+    - apply fsim_flush. exact H.
+  Qed.
+
+  Lemma never_failing_sink : forall t0 interval ops,
+    let w := jrun ops (new_writer t0 interval) in
+    let fw := fjrun ops (fnew t0 interval []) in
+    file_of fw = map Some (w_out w) /\ f_cur fw = w_cur w /\ f_last fw = w_last w /\
+    forall from to, fcount hash heqb from to (file_of fw) = Some (count from to (w_out w)).
+  Proof.
+    intros t0 interval ops w fw.
+    assert (H : fsim w fw) by (apply fsim_run; unfold fsim, fnew, new_writer; cbn; repeat split; reflexivity).
+    destruct H as [A [B [C [D [E F]]]]]. unfold file_of. rewrite E, D, app_nil_r.
+    split; [reflexivity|]. split; [exact C|]. split; [exact A|]. intros from to. unfold fcount.
+    assert (R : forall l : list (chunk hash), readable (map Some l) = true /\ good_lines (map Some l) = l).
+    { induction l as [|c l IH]; [split; reflexivity|]. destruct IH as [I1 I2]. cbn. rewrite I2. split; [exact I1 | reflexivity]. }
+    destruct (R (w_out w)) as [R1 R2]. rewrite R1, R2. reflexivity.
+  Qed.
+
+  (* the reader gives an answer only when every line parses, and then it is the window count of the chunks *)
+  Lemma fcount_spec : forall from to f r,
+    fcount hash heqb from to f = Some r <-> readable f = true /\ r = count from to (good_lines f).
+  Proof.
+    intros from to f r. unfold fcount. destruct (readable f); split.
+    - intro H. inversion H. auto.
+    - intros [_ ->]. reflexivity.
+    - discriminate.
+    - intros [H _]. discriminate.
+  Qed.
 End JournalProofs.
